@@ -897,3 +897,203 @@ Example ex_frag_table_write :
   exists b s, ft_write (fun _ => CStore) 500 (mk_ft FSZ 128 2 (map frag_entry [(96, 300); (4096, 16777516)]%N)) 0 0
               = Common.Ok (b, s, 2, c_SQFS_FLAG_ALWAYS_FRAGMENTS)%N /\ length b = 42.
 Proof. exact FragWrite.ex_ft_write. Qed.
+
+(* ------------------------------------------------------------------------------------------------------------------
+   Extension (session 3, array growth): sqfs_frag_table_append over a whole list, the growth steps of array_append
+   (first capacity 128, then doubling, both SZ_MUL_OV tests) included.  coq/C08/FragTableGrow.v.
+   Closes the open item "ft_appends = ft_holding not proved (array growth)": for every object state meeting the
+   invariant [ft_inv] (16-byte elements, [used] elements stored, used <= capacity) and every list l with
+   used + |l| <= 2^32 (the bound that makes "*index = (sqfs_u32)used" the position; it also keeps the overflow tests
+   quiet), the object afterwards holds the old entries followed by l, every call returned 0 and the position,
+   lookups return the entries, get_size = the count.  malloc/realloc failure: Util.ArrayModel has none; [ft_append_o]
+   adds the oracle (= ft_append when realloc succeeds) and a failed call leaves the object untouched.
+   ------------------------------------------------------------------------------------------------------------------ *)
+From SqfsV Require Import C08.FragTableGrow.
+
+Theorem frag_table_appends_hold :
+  forall (t : ftobj) (l : list (N * N)),
+  ft_inv t -> (ArrayModel.a_used t + lenN l <= RBase.two32)%N ->
+  let t' := ft_appends t l in
+  ft_inv t' /\ ArrayModel.a_data t' = ArrayModel.a_data t ++ map frag_entry l /\
+  (ArrayModel.a_count t <= ArrayModel.a_count t')%N /\
+  ft_get_size t' = (ft_get_size t + lenN l)%N /\
+  (forall k, k < length l -> nth_error (ft_appends_res t l) k = Some (Z0, (ft_get_size t + N.of_nat k)%N)) /\
+  (forall i, (i < ft_get_size t)%N -> ft_lookup t' i = ft_lookup t i) /\
+  (forall k f, nth_error l k = Some f -> frag_okb f = true ->
+     ft_lookup t' (ft_get_size t + N.of_nat k)%N = RBase.Ok (fst f, snd f, 0%N)) /\
+  (forall i, (ft_get_size t + lenN l <= i)%N -> ft_lookup t' i = RBase.Err RBase.E_OOB).
+Proof. exact ft_appends_holds. Qed.
+Print Assumptions frag_table_appends_hold.
+
+(* the hypotheses are met by what create and read leave *)
+Theorem frag_table_created_and_loaded_meet_invariant :
+  ft_inv ft_create /\ forall l, ft_inv (ft_holding l).
+Proof. exact (conj ft_create_inv ft_holding_inv). Qed.
+Print Assumptions frag_table_created_and_loaded_meet_invariant.
+
+(* create + appends: the object of frag_table_write_is_image_step (cap = whatever the growth left), and - capacity
+   apart - the object sqfs_frag_table_read leaves on the image written from it *)
+Theorem frag_table_appends_from_create :
+  forall l : list (N * N),
+  (lenN l <= RBase.two32)%N ->
+  ft_appends ft_create l
+  = mk_ft FSZ (ArrayModel.a_count (ft_appends ft_create l)) (Res.nlen l) (map frag_entry l) /\
+  ft_pairs (ft_appends ft_create l) = ft_pairs (ft_holding l) /\
+  ft_get_size (ft_appends ft_create l) = ft_get_size (ft_holding l) /\
+  (forall i, ft_lookup (ft_appends ft_create l) i = ft_lookup (ft_holding l) i).
+Proof. exact ft_appends_create. Qed.
+Print Assumptions frag_table_appends_from_create.
+
+(* realloc as an oracle *)
+Theorem frag_table_append_oracle_true_is_append :
+  forall t a b, ft_append_o true t a b = ft_append t a b.
+Proof. exact ft_append_o_no_failure. Qed.
+Print Assumptions frag_table_append_oracle_true_is_append.
+
+Theorem frag_table_append_failure_keeps_entries :
+  forall ok t a b,
+  fst (fst (ft_append_o ok t a b)) <> Z0 ->
+  fst (fst (ft_append_o ok t a b)) = c_SQFS_ERROR_ALLOC /\
+  snd (fst (ft_append_o ok t a b)) = t /\
+  (forall i, ft_lookup (snd (fst (ft_append_o ok t a b))) i = ft_lookup t i) /\
+  ft_get_size (snd (fst (ft_append_o ok t a b))) = ft_get_size t.
+Proof. exact ft_append_failure_keeps_entries. Qed.
+Print Assumptions frag_table_append_failure_keeps_entries.
+
+Theorem frag_table_append_refused_when_full :
+  forall t a b, ArrayModel.a_used t = ArrayModel.a_count t ->
+  ft_append_o false t a b = (c_SQFS_ERROR_ALLOC, t, (ArrayModel.a_used t mod RBase.two32)%N).
+Proof. exact ft_append_refused_when_full. Qed.
+Print Assumptions frag_table_append_refused_when_full.
+
+(* non-vacuity: 300 appends from create (capacity 128 -> 256 -> 512), 7 appends to a loaded table (3 -> 6 -> 12),
+   a refused append on a full table, and the index wrapping at used = 2^32 (why the bound is there) *)
+Example ex_frag_table_grow_from_create :
+  let l := ex_entries 300 in
+  let t := ft_appends ft_create l in
+  forallb frag_okb l = true /\
+  counts_along ft_create l = [128; 256; 512]%N /\
+  ArrayModel.a_count t = 512%N /\ ft_get_size t = 300%N /\ ft_pairs t = l /\
+  ft_appends_res ft_create l = idx_from 0 300 /\
+  ft_lookup t 0 = RBase.Ok (96, 300, 0)%N /\
+  ft_lookup t 128 = RBase.Ok (128096, 428, 0)%N /\
+  ft_lookup t 257 = RBase.Ok (257096, 16777473, 0)%N /\
+  ft_lookup t 299 = RBase.Ok (299096, 16777515, 0)%N /\
+  ft_lookup t 300 = RBase.Err RBase.E_OOB.
+Proof. exact ex_grow_from_create. Qed.
+
+Example ex_frag_table_grow_from_loaded :
+  let t0 := ft_holding (ex_entries 3) in
+  let l := skipn 3 (ex_entries 10) in
+  let t := ft_appends t0 l in
+  counts_along t0 l = [6; 12]%N /\
+  ft_pairs t = ex_entries 10 /\ ft_get_size t = 10%N /\
+  ft_appends_res t0 l = idx_from 3 7 /\
+  ft_lookup t 2 = ft_lookup t0 2 /\ ft_lookup t 9 = RBase.Ok (9096, 16777225, 0)%N.
+Proof. exact ex_grow_from_loaded. Qed.
+
+Example ex_frag_table_append_refused :
+  let t := ft_appends ft_create (ex_entries 128) in
+  ArrayModel.a_used t = ArrayModel.a_count t /\
+  ft_append_o false t 5 6 = (c_SQFS_ERROR_ALLOC, t, 128%N) /\
+  fst (fst (ft_append_o true t 5 6)) = Z0 /\ ArrayModel.a_count (snd (fst (ft_append_o true t 5 6))) = 256%N /\
+  let t2 := ft_appends ft_create (ex_entries 5) in ft_append_o false t2 5 6 = ft_append t2 5 6.
+Proof. exact ex_append_refused. Qed.
+
+Example ex_frag_table_index_wraps :
+  snd (ft_append (mk_ft FSZ 8589934592 4294967296 []) 1 2) = 0%N /\
+  ArrayModel.a_used (snd (fst (ft_append (mk_ft FSZ 8589934592 4294967296 []) 1 2))) = 4294967297%N.
+Proof. exact ex_index_wraps. Qed.
+
+(* ------------------------------------------------------------------------------------------------------------------
+   Extension (session 3, frag_table_copy): the copy callback of the fragment table object = calloc + array_init_copy
+   (Util.ArrayModel.array_init_copy: capacity of the copy = USED of the source, the first [used] elements).
+   coq/C08/FragTableCopy.v.  [ft_copy ok t]: None = NULL ([ok] = every allocation succeeded; SZ_MUL_OV(size, used) ->
+   NULL as well).  The model's objects are values, so independence is true by construction of the MODEL; it is stated
+   (frame property over a two-object state) as what the tie's copy op is compared against.
+   ------------------------------------------------------------------------------------------------------------------ *)
+From SqfsV Require Import C08.FragTableCopy.
+
+Theorem frag_table_copy_holds_same_entries :
+  forall ok t c,
+  ft_inv t -> ft_copy ok t = Some c ->
+  ft_inv c /\ c = mk_ft FSZ (ArrayModel.a_used t) (ArrayModel.a_used t) (ArrayModel.a_data t) /\
+  ft_pairs c = ft_pairs t /\ ft_get_size c = ft_get_size t /\
+  (forall i, ft_lookup c i = ft_lookup t i) /\
+  (forall i, (ft_get_size t <= i)%N -> ft_lookup c i = RBase.Err RBase.E_OOB).
+Proof. exact ft_copy_holds_same_entries. Qed.
+Print Assumptions frag_table_copy_holds_same_entries.
+
+(* the hypothesis "ft_copy = Some" is met: all allocations succeed and used * 16 fits size_t; NULL otherwise *)
+Theorem frag_table_copy_succeeds :
+  forall t, ft_inv t -> (16 * ArrayModel.a_used t <= GenUtil.util_size_max)%N ->
+  ft_copy true t = Some (mk_ft FSZ (ArrayModel.a_used t) (ArrayModel.a_used t) (ArrayModel.a_data t)).
+Proof. exact ft_copy_succeeds. Qed.
+Print Assumptions frag_table_copy_succeeds.
+
+Theorem frag_table_copy_alloc_failure_is_null : forall t, ft_copy false t = None.
+Proof. exact ft_copy_false. Qed.
+Print Assumptions frag_table_copy_alloc_failure_is_null.
+
+Theorem frag_table_copy_independent :
+  forall (uc : list N -> N -> RBase.res (list N)) (img : list N) ok t c,
+  ft_copy ok t = Some c ->
+  (forall l,
+     fst (fam_runs uc img (t, c) l) = (fst (fruns uc img t (sel Orig l)), fst (fruns uc img c (sel Copy l))) /\
+     sel Orig (snd (fam_runs uc img (t, c) l)) = snd (fruns uc img t (sel Orig l)) /\
+     sel Copy (snd (fam_runs uc img (t, c) l)) = snd (fruns uc img c (sel Copy l))) /\
+  (forall ops, fst (fst (fam_runs uc img (t, c) (map (pair Copy) ops))) = t) /\
+  (forall ops, snd (fst (fam_runs uc img (t, c) (map (pair Orig) ops))) = c).
+Proof. exact ft_copy_independent. Qed.
+Print Assumptions frag_table_copy_independent.
+
+Theorem frag_table_copy_then_appends :
+  forall ok t c l,
+  ft_inv t -> ft_copy ok t = Some c -> (ArrayModel.a_used t + lenN l <= RBase.two32)%N ->
+  let c' := ft_appends c l in
+  let t' := ft_appends t l in
+  ft_inv c' /\ ArrayModel.a_data c' = ArrayModel.a_data t ++ map frag_entry l /\
+  ft_appends_res c l = ft_appends_res t l /\
+  ft_pairs c' = ft_pairs t' /\ ft_get_size c' = ft_get_size t' /\
+  (forall i, ft_lookup c' i = ft_lookup t' i) /\
+  (ArrayModel.a_used t <= ArrayModel.a_count c')%N.
+Proof. exact ft_copy_then_appends. Qed.
+Print Assumptions frag_table_copy_then_appends.
+
+(* refuted: a copy that takes the source's capacity for its used count (seeded bug) has phantom entries *)
+Theorem frag_table_copy_phantom_refuted :
+  ft_lookup ex_t5 5 = RBase.Err RBase.E_OOB /\ ft_get_size ex_t5 = 5%N /\
+  ft_lookup (ft_copy_phantom ex_junk ex_t5) 5 = RBase.Ok (3735928559, 48879, 0)%N /\
+  ft_lookup (ft_copy_phantom ex_junk ex_t5) 127 = RBase.Ok (3735928559, 48879, 0)%N /\
+  ft_get_size (ft_copy_phantom ex_junk ex_t5) = 128%N /\
+  ft_lookup (ft_copy_phantom ex_junk ex_t5) 4 = ft_lookup ex_t5 4.
+Proof. exact ft_copy_phantom_refuted. Qed.
+Print Assumptions frag_table_copy_phantom_refuted.
+
+Example ex_frag_table_copy :
+  ft_inv ex_t5 /\ ArrayModel.a_count ex_t5 = 128%N /\
+  match ft_copy true ex_t5 with
+  | Some c =>
+    ArrayModel.a_count c = 5%N /\ ArrayModel.a_used c = 5%N /\ ft_pairs c = ex_entries 5 /\
+    ft_lookup c 4 = ft_lookup ex_t5 4 /\ ft_lookup c 5 = RBase.Err RBase.E_OOB /\
+    counts_along c (skipn 5 (ex_entries 16)) = [10; 20]%N /\
+    counts_along ex_t5 (skipn 5 (ex_entries 16)) = [] /\
+    ft_pairs (ft_appends c (skipn 5 (ex_entries 16))) = ex_entries 16 /\
+    ft_appends_res c (skipn 5 (ex_entries 16)) = idx_from 5 11
+  | None => False
+  end /\
+  ft_copy false ex_t5 = None /\
+  ft_copy true (mk_ft FSZ 1152921504606846976 1152921504606846976 []) = None.
+Proof. exact ex_copy. Qed.
+
+Example ex_frag_table_copy_family :
+  match ft_copy true ex_t5 with
+  | Some c =>
+    let l := [(Copy, FAppend 777 42); (Orig, FSet 0 1 2); (Copy, FLookup 0); (Orig, FLookup 0); (Copy, FLookup 5);
+              (Orig, FLookup 5); (Copy, FSize); (Orig, FSize)]%N in
+    map snd (snd (fam_runs (fun _ _ => RBase.Crash) [] (ex_t5, c) l)) =
+    [AApp Z0 5; ASet Z0; ALook (RBase.Ok (96, 300, 0)); ALook (RBase.Ok (1, 2, 0)); ALook (RBase.Ok (777, 42, 0));
+     ALook (RBase.Err RBase.E_OOB); ASz 6; ASz 5]%N
+  | None => False
+  end.
+Proof. exact ex_copy_family. Qed.
